@@ -70,6 +70,17 @@ def only_shard(key, P):
         # native replay: shards are a partition of one space, any shard may replay any point
 
 
+def is_symbolic(x):
+    """True for CrossHair symbolic values (``type(x)`` lies under tracing, so ask untraced)."""
+    if not _MODE["sym"]:
+        return False
+    from crosshair.core import CrossHairValue
+    from crosshair.tracers import NoTracing
+
+    with NoTracing():
+        return isinstance(x, CrossHairValue)
+
+
 def concretize(x):
     """Fork a symbolic value to one concrete value per path (other values on other paths)."""
     if _MODE["sym"]:
